@@ -43,7 +43,7 @@ func init() {
 
 func (propC07) ID() string { return "C07" }
 
-var c07calls = []string{"eval", "eval", "eval", "tryeval", "tryeval", "evalbool", "dump", "dumptable"}
+var c07calls = []string{"eval", "eval", "eval", "tryeval", "tryeval", "evalbool", "tryevalbool", "dump", "dumptable", "dumptable_skip"}
 
 func genC07Tasks(r *Rng, g *Gen, w *World, nt int) {
 	for t := 0; t < nt; t++ {
@@ -55,7 +55,7 @@ func genC07Tasks(r *Rng, g *Gen, w *World, nt int) {
 		for c := 0; c < nc; c++ {
 			kind := c07calls[r.Intn(len(c07calls))]
 			s := Step{Op: kind, Expr: r.Intn(len(w.Exprs))}
-			if kind != "dump" && kind != "dumptable" {
+			if kind != "dump" && kind != "dumptable" && kind != "dumptable_skip" {
 				p := Plan{Kind: kind, Bind: g.Binding(), Clock: int64(r.Range(1, 1000)), CtxDone: r.P(0.1)}
 				switch r.Intn(8) {
 				case 0:
@@ -65,7 +65,7 @@ func genC07Tasks(r *Rng, g *Gen, w *World, nt int) {
 				case 2:
 					p.AbortAt = r.Intn(6) + 1
 				}
-				if kind == "tryeval" {
+				if kind == "tryeval" || kind == "tryevalbool" {
 					for _, v := range w.Cfg.Vars {
 						if r.P(0.3) {
 							p.Unavail = append(p.Unavail, v.Name)
@@ -241,7 +241,7 @@ func (rn *c07run) exec(exprs []*Compiled, s Step, yield func(kind, name string),
 		env.Sub = func() interface{} {
 			next := exprs[(s.Expr+1)%len(exprs)]
 			ikind := "eval"
-			if s.Op == "tryeval" {
+			if s.Op == "tryeval" || s.Op == "tryevalbool" {
 				ikind = "tryeval"
 			}
 			ienv := NewEnv(rn.ops, &Plan{Kind: ikind, Bind: s.Plan.Bind, Unavail: s.Plan.Unavail, Clock: s.Plan.Clock})
